@@ -11,6 +11,7 @@ package main
 
 import (
 	"fmt"
+	"math"
 	"sort"
 	"strings"
 
@@ -241,13 +242,14 @@ func (c *stepCtx) expectAccept() (bool, bool) {
 		if o.k == "append" {
 			return n <= mi.bytes*8-sn.lastEnd(mi.lay), true
 		}
-		return o.z >= 0 && o.z+n <= mi.bytes*8 && sn.rangeFree(mi.lay, -1, o.z, n), true
+		return o.z >= 0 && o.z <= mi.bytes*8-n && sn.rangeFree(mi.lay, -1, o.z, n), true
 	case "resize":
 		if o.a >= nM {
 			return false, false
 		}
 		mi := sn.msgs[o.a]
-		return o.z >= 0 && (o.z == mi.bytes || sn.lastEnd(mi.lay) <= o.z*8), true
+		// the size in bits must be representable in an int; then the last signal must still fit
+		return o.z >= 0 && (o.z == mi.bytes || (o.z <= math.MaxInt64/8 && sn.lastEnd(mi.lay) <= o.z*8)), true
 	case "settype":
 		if o.a >= nS || c.w.sigs[o.a].Kind() != acmelib.SignalKindStandard || o.z < 1 {
 			return false, false
@@ -271,7 +273,7 @@ func (c *stepCtx) expectAccept() (bool, bool) {
 				return false, true
 			}
 		}
-		if o.z < 0 || o.z+n > mi.gsize {
+		if o.z < 0 || o.z > mi.gsize-n {
 			return false, true
 		}
 		if o.fix {
@@ -420,21 +422,20 @@ func (c *stepCtx) checkShift() []failure {
 			if i > 0 {
 				lo = pre.end(hs[i-1])
 			}
-			tgt := st - o.z
-			if tgt < lo {
-				tgt = lo
+			want = o.z
+			if want > st-lo {
+				want = st - lo
 			}
-			want = st - tgt
 		} else {
 			hi := size
 			if i+1 < len(hs) {
 				hi = pre.sigs[hs[i+1]].rel
 			}
-			tgt := st + o.z
-			if tgt+n > hi {
-				tgt = hi - n
+			// the shift is the requested amount, bounded by the free space behind the signal
+			want = o.z
+			if want > hi-n-st {
+				want = hi - n - st
 			}
-			want = tgt - st
 		}
 		moved := pst.sigs[x].rel - st
 		if left {
